@@ -54,10 +54,12 @@ def run(chk: Check):
     # (ii) real kernels
     jobs = [dict(seq="iwls_rw_gibbs", model_kind="liesel", seed=chk.seed),
             dict(seq="rw_mh_rw", model_kind="dict", seed=chk.seed + 1),
-            dict(seq="rw_mh_rw", model_kind="liesel", seed=chk.seed + 2, custom_idents=False)]
+            dict(seq="rw_mh_rw", model_kind="liesel", seed=chk.seed + 2, custom_idents=False),
+            dict(seq="rw_hi_u_ab", model_kind="liesel2", seed=chk.seed + 7)]
     if not chk.quick:
         jobs += [dict(seq="gibbs_nuts", model_kind="liesel", seed=chk.seed + 3),
                  dict(seq="hmc_rw", model_kind="liesel", seed=chk.seed + 4),
+                 dict(seq="nuts_u_rw", model_kind="liesel2", seed=chk.seed + 8),
                  dict(seq="gibbs_nuts", model_kind="dict", seed=chk.seed + 5),
                  dict(seq="iwls_rw_gibbs", model_kind="dict", seed=chk.seed + 6, chains=3,
                       schedule=((2, 6), (1, 3), (4, 6)))]
